@@ -108,7 +108,7 @@ class Check:
                 if key not in [k for k, _ in self.known_hits]:
                     self.known_hits.append((key, f.get('what', what)))
                 return 'known'
-        if any(v['key'] == key and v['what'] == what for v in self.violations):
+        if any(v['key'] == key and v['what'] == what for v in self.violations) or sum(1 for v in self.violations if v['key'] == key) >= 3:
             return 'dup'
         self._nviol += 1
         path = os.path.join(REPLAY, f"{self.pid}-{self._nviol}.json")
